@@ -55,6 +55,31 @@ type c02Case struct {
 	Elems   []c02Elem   `json:"elems"`
 	Chunks  []int       `json:"chunks"`
 	Corrupt *c02Corrupt `json:"corrupt,omitempty"`
+	// Lead: this many plain stanzas (about 100 bytes each) precede the generated elements on the same stream, so that
+	// the decoder has already consumed tens of kilobytes to a megabyte when it reaches them
+	Lead int `json:"lead,omitempty"`
+}
+
+// all returns the top-level elements of the stream: the leading plain stanzas, then the generated ones.
+func (c *c02Case) all() []c02Elem {
+	if c.Lead == 0 {
+		return c.Elems
+	}
+	out := make([]c02Elem, 0, c.Lead+len(c.Elems))
+	for i := 0; i < c.Lead; i++ {
+		e := c02Elem{Id: fmt.Sprintf("L%d", i), From: "a@x.org/r", To: "me@x.org"}
+		switch i % 3 {
+		case 0:
+			e.Kind, e.Type = "message", "chat"
+			e.Kids = []c02Child{{Kind: "literal", Text: "<body>0123456789 0123456789 0123456789</body>"}}
+		case 1:
+			e.Kind = "presence"
+		default:
+			e.Kind, e.Type = "iq", "result"
+		}
+		out = append(out, e)
+	}
+	return append(out, c.Elems...)
 }
 
 const (
@@ -214,6 +239,20 @@ func genC02(t *rapid.T) c02Case {
 	case 2:
 		ns := rapid.SampledFrom([]string{"default", nsStreamNS, nsSASL, nsSM}).Draw(t, "unameNS")
 		c.Elems = append(c.Elems, c02Elem{Kind: "unknown-name", Name: rapid.SampledFrom([]string{"foo", "auth", "enable", "stream", "open"}).Draw(t, "uname"), NS: ns})
+	}
+	// (rapid favours the ends of an integer range, so the rare class is tied to values from the middle)
+	if l := rapid.IntRange(0, 199).Draw(t, "long"); l == 57 || l == 113 || l == 171 {
+		switch rapid.IntRange(0, 19).Draw(t, "leadClass") {
+		case 0:
+			c.Lead = rapid.IntRange(9000, 12000).Draw(t, "lead") // beyond 1 MiB
+			if !vh.Thorough() {
+				c.Lead /= 4
+			}
+		case 1, 2, 3, 4:
+			c.Lead = rapid.IntRange(2200, 4000).Draw(t, "lead") // beyond 256 KiB
+		default:
+			c.Lead = rapid.IntRange(500, 1200).Draw(t, "lead") // around 64 KiB
+		}
 	}
 	nc := rapid.IntRange(0, 6).Draw(t, "nchunks")
 	for i := 0; i < nc; i++ {
@@ -394,11 +433,12 @@ func (c *c02Case) serialise() (string, []int) {
 		s.ws = true
 		s.sb.WriteString(`<open xmlns="urn:ietf:params:xml:ns:xmpp-framing" id="abc" from="x.org" version="1.0"/>`)
 	}
-	for i := range c.Elems {
-		if s.ws && c.Elems[i].Kind == "close" {
+	all := c.all()
+	for i := range all {
+		if s.ws && all[i].Kind == "close" {
 			continue
 		}
-		s.elem(&c.Elems[i])
+		s.elem(&all[i])
 	}
 	return s.sb.String(), s.ends
 }
@@ -522,7 +562,7 @@ func c02Describe(p stanza.Packet) (kind, id, from, to, typ string, h int) {
 
 func (c *c02Case) effective() []c02Elem {
 	var out []c02Elem
-	for _, e := range c.Elems {
+	for _, e := range c.all() {
 		if c.Header == "ws" && e.Kind == "close" {
 			continue
 		}
@@ -550,6 +590,12 @@ func runC02(c c02Case) vh.Result {
 	}
 	if smallChunk {
 		res.Label("small-reads")
+	}
+	if len(data) > 64<<10 {
+		res.Label("stream>64KiB")
+	}
+	if len(data) > 256<<10 {
+		res.Label("stream>256KiB")
 	}
 
 	judgePrefix := func(how string, r c02Read, upto int, expectErrAfter bool) {
@@ -691,7 +737,7 @@ func runC02(c c02Case) vh.Result {
 
 var c02 = vh.Define(&vh.Def[c02Case]{
 	Property: "C02", Name: "stream",
-	Rule: "streams generated from a grammar: client / component / WebSocket header, 0-8 top-level elements (message, presence, iq with known extensions, unknown extensions, text, CDATA, comments and descendants named like the enclosing stanza in the same namespace at depth 1-4; stream features/error, SASL success/failure, every stream-management element, handshake), optional unknown-namespace / unknown-name element or stream close at the end; own serialiser varying quoting, prefix vs default namespace, self-closing tags and white space, recording where each top-level element ends; a segmentation (read sizes 1-64, weighted to 1-3); one third of the cases are corrupted (truncation at a generated offset, byte flip, insert, delete). Oracle: k-th NextPacket result has the kind and id/from/to/type (or h/previd) of the k-th element; unknown elements give an error at their index; same packets for every segmentation (reflect.DeepEqual); truncation returns exactly the elements that end before the cut and then an error; corrupted input never panics, never hangs (30 s watchdog) and ends in an error. non-trivial = >= 2 top-level elements and (nested same-name descendant, unknown child, a read size < 8, or a corruption)",
+	Rule: "streams generated from a grammar: client / component / WebSocket header, 0-8 top-level elements (message, presence, iq with known extensions, unknown extensions, text, CDATA, comments and descendants named like the enclosing stanza in the same namespace at depth 1-4; stream features/error, SASL success/failure, every stream-management element, handshake), optional unknown-namespace / unknown-name element or stream close at the end; in 0.5 % of the cases 500-12000 plain stanzas (500-4000 in the quick tier) precede them on the same stream (64 KiB to beyond 1 MiB already consumed by the decoder); own serialiser varying quoting, prefix vs default namespace, self-closing tags and white space, recording where each top-level element ends; a segmentation (read sizes 1-64, weighted to 1-3); one third of the cases are corrupted (truncation at a generated offset, byte flip, insert, delete). Oracle: k-th NextPacket result has the kind and id/from/to/type (or h/previd) of the k-th element; unknown elements give an error at their index; same packets for every segmentation (reflect.DeepEqual); truncation returns exactly the elements that end before the cut and then an error; corrupted input never panics, never hangs (30 s watchdog) and ends in an error. non-trivial = >= 2 top-level elements and (nested same-name descendant, unknown child, a read size < 8, or a corruption)",
 	Quick: 30000, Thorough: 3000000,
 	Gen: genC02, Run: runC02,
 })
